@@ -822,11 +822,20 @@ class Interp:
                 inits[n] = frame.env[n]
                 frame.env[n] = T("loopvar", n, lid, inits[n])
         attr_inits = {}
+        fresh_attrs = set()
         for (bn, an) in self._assigned_attrs(s.body):
             if bn in frame.env:
                 key = (frame.env[bn], an)
                 if key in self.attrs:
                     attr_inits[key] = self.attrs[key]
+                    self.attrs[key] = T("loopvar", f"{bn}.{an}", lid,
+                                        attr_inits[key])
+                else:
+                    # not written before the loop: it starts as the object's
+                    # own attribute and is carried from one iteration to the
+                    # next all the same
+                    attr_inits[key] = tm.attr(frame.env[bn], an)
+                    fresh_attrs.add(key)
                     self.attrs[key] = T("loopvar", f"{bn}.{an}", lid,
                                         attr_inits[key])
         self.emit("loop", s, live, frame, iter=it, lid=lid)
@@ -849,7 +858,10 @@ class Interp:
         for key, init in attr_inits.items():
             cur = self.attrs.get(key)
             if cur is not None and cur.op == "loopvar" and cur.args[1] == lid:
-                self.attrs[key] = init
+                if key in fresh_attrs:
+                    del self.attrs[key]
+                else:
+                    self.attrs[key] = init
             elif cur is not None:
                 self.attrs[key] = T("loopout", f"{key[1]}", lid, init, cur)
         if s.orelse:
